@@ -797,6 +797,47 @@ def run(prog, rep, tier):
         rep.violation(R413, ab_.path + "|tie|back-preferred", "dt_patterns_analysis (line %d) selects the pattern to keep with %s(), which on equal counts prefers the row nearer the END of the table (the more general one); "
                       "a short file whose second line lacks the zone its other lines carry is then read with the zone-less pattern and every written offset is ignored" % (back_pref[0][1], back_pref[0][0]))
 
+    # ------------------------------------------------------------ R4.14 a zone name is not the beginning of a longer word
+    # Rows that read a named zone capture one of the table's abbreviations.  What follows the group has
+    # to exclude a letter, or the first letters of an ordinary word are taken for a zone:
+    # `... 14:35:05.506282 getting started` is read with GET (+04:00), four hours off.
+    R414 = rep.rule("R4.14", "after a named-zone group a letter cannot follow")
+    n414 = 0
+    for i, r_ in enumerate(rows):
+        if r_["fields"]["dtfs"]["fields"]["tz"].get("variant") not in ("Z",):
+            continue
+        p_ = r_["fields"]["regex_pattern"]
+        k_ = p_.find("(?P<tz>")
+        if k_ < 0:
+            continue
+        after_ = p_[k_:]
+        depth_, cut_ = 0, None
+        for ci, ch_ in enumerate(after_):
+            if ch_ == "(" and (ci == 0 or after_[ci - 1] != "\\"):
+                depth_ += 1
+            elif ch_ == ")" and after_[ci - 1] != "\\":
+                depth_ -= 1
+                if depth_ == 0:
+                    cut_ = ci + 1
+                    break
+        if cut_ is None:
+            raise CheckerError("R4.14: cannot isolate the tz group of row %d" % i)
+        rem_ = after_[cut_:]
+        n414 += 1
+        if rem_ == "":
+            letter_follows = True
+        else:
+            cre = _py(rem_)
+            if cre is None:
+                raise CheckerError("R4.14: cannot evaluate what may follow the zone group of row %d: %r" % (i, rem_[:40]))
+            letter_follows = any(cre.match(x_) for x_ in ("ting started", "x", "H established", "a ", "Z"))
+        rep.examined(R414, "row %d" % i, sample={"row": i, "line": r_["fields"].get("_line_num"), "after_zone_group": rem_[:30], "letter_may_follow": letter_follows})
+        if letter_follows:
+            rep.violation(R414, "row|%s|zone-name-prefix-of-word" % p_[:48], "DATETIME_PARSE_DATAS[%d] (source line %s): a letter may follow the captured zone name (%r), so a word that merely begins with an abbreviation is read as a zone: "
+                          "`...05.506282 getting started` is attributed GET (+04:00), `WITH ...` WIT (+09:00)" % (i, r_["fields"].get("_line_num"), rem_[:30]))
+    if n414 < 20:
+        raise CheckerError("R4.14: only %d named-zone rows" % n414)
+
     # ------------------------------------------------------------ R4.8 the --tz-offset value itself (lift of C14 R14.4, R14.8)
     # "A timestamp without zone information is read in the --tz-offset zone": the option's parser is part
     # of this property; its structural rules live in C14 and are lifted here.
